@@ -378,14 +378,25 @@ var jsonWS = []string{" ", "\t", "\n", "\r", "\r\n", " \t \r"}
 // litGap writes optional JSON whitespace (legal around every token of a JSON
 // text, and therefore anywhere between the backticks outside strings).
 func litGap(b *strings.Builder, c Chooser) {
+	if q, ok := c.(quietChooser); ok && q.quiet {
+		return
+	}
 	if c.Choose("litws", 6) == 1 {
 		b.WriteString(jsonWS[c.Choose("litwskind", len(jsonWS))])
 	}
 }
 
+// quietChooser wraps a Chooser for one literal: two literals in three are
+// written without any optional white space (one draw instead of one per token).
+type quietChooser struct {
+	Chooser
+	quiet bool
+}
+
 // JSONLiteral writes v between backticks.
 func JSONLiteral(v jv.Val, c Chooser) string {
 	var b strings.Builder
+	c = quietChooser{Chooser: c, quiet: c.Choose("litloose", 3) != 1}
 	b.WriteByte('`')
 	litGap(&b, c)
 	writeJSONLit(&b, v, c)
